@@ -87,6 +87,10 @@ func (w *ConfigurationWatcher) Start(ch chan<- controller.ID) error {
 		for event := range eventCh {
 			ch <- controller.NewID(proposalstore.NewID(event.Configuration.TargetID, event.Configuration.Index))
 			ch <- controller.NewID(proposalstore.NewID(event.Configuration.TargetID, event.Configuration.Status.Applied.Index))
+			// The newest proposal of the target: when it waits behind its predecessors it re-queues them in turn, which reaches
+			// the first proposal that was waiting for this configuration change (mastership, synchronization) even when
+			// neither Index nor Applied.Index name it (nothing applied yet, or Index lowered by a rollback).
+			ch <- controller.NewID(proposalstore.NewID(event.Configuration.TargetID, event.Configuration.Status.Proposed.Index))
 		}
 	}()
 	return nil
